@@ -14,6 +14,7 @@ Streams (kind):
   leak        a helper whose returned condition is about *its* parameter, called from a function that has a variable
               of the same name (global, closure, parameter, local)                (defect (d), fixed in 180079d)
   asname      `case <pattern with sub-patterns> as p`: the value bound to p        (finding (a), C01's)
+  compare     every operator of the comparison table on len(x) and on the variable, from either side  (round-5 seed)
   protocol    truthiness of protocol / ABC typed values (Hashable, Iterable, ...)  (finding (c))
 
 A failing (program, recording point, object) is attributed to a known finding only by the explicit python clause
@@ -42,6 +43,16 @@ def value_has(v, o) -> bool:
     from pyanalyze import value as V
 
     if isinstance(v, V.AnnotatedValue):
+        # custom checks with a run-time predicate (MinLen / MaxLen / Lt / Gt ...) are honoured, others ignored (superset)
+        for ext in v.metadata:
+            check = getattr(ext, "custom_check", None)
+            pred = getattr(check, "predicate", None)
+            if isinstance(ext, V.CustomCheckExtension) and callable(pred):
+                try:
+                    if not pred(o):
+                        return False
+                except Exception:
+                    pass
         return value_has(v.value, o)
     if isinstance(v, V.MultiValuedValue):
         return any(value_has(m, o) for m in v.vals)
@@ -53,6 +64,13 @@ def value_has(v, o) -> bool:
         if not isinstance(o, type):
             return False
         return issubclass(o, v.typ.typ) if isinstance(v.typ, V.TypedValue) and isinstance(v.typ.typ, type) else True
+    if isinstance(v, V.SequenceValue) and isinstance(v.typ, type):
+        if not isinstance(o, v.typ):
+            return False
+        fixed = [m for many, m in v.members if not many]
+        if len(fixed) != len(v.members):
+            return len(o) >= len(fixed)
+        return len(o) == len(fixed) and all(value_has(m, e) for m, e in zip(fixed, o))
     if isinstance(v, V.TypedValue):
         typ = v.typ
         if not isinstance(typ, type):
@@ -223,6 +241,80 @@ def protocol_progs():
 
 
 # ---------------------------------------------------------------------------
+# comparisons (round 5): every operator of COMPARATOR_TO_OPERATOR (== != < <= > >= in `not in` is `is not`) applied to
+# len(x) (the only predicate provider) from either side, to the variable itself from either side (the literal on the
+# left: `c in x`, `3 < x`), in if / negated / stored form, on unions whose members differ in exactly the tested respect
+
+LENVARS = [
+    ("Union[tuple[int], tuple[int, int], tuple[int, int, int]]", [(7,), (7, 8), (7, 8, 9)]),
+    ("Union[tuple[()], tuple[int], tuple[int, str]]", [(), (7,), (7, "s")]),
+    ('Literal["", "a", "ab", "abc"]', ["", "a", "ab", "abc"]),
+    ("tuple[int, ...]", [(), (7,), (7, 8), (7, 8, 9)]),
+    ("Union[tuple[int, int], str]", [(7, 8), "", "ab", "abc"]),
+    ("str", ["", "a", "ab", "abc"]),
+    ("Union[tuple[int, ...], tuple[str, str, str]]", [(), (7,), (7, 8), ("a", "b", "c")]),
+]
+CMP_OPS = ["==", "!=", "<", "<=", ">", ">=", "is", "is not"]
+LEN_CONTAINERS = ["(1, 2)", "(0,)", "()", "[2, 3]", "{1, 3}", "RNG3", '(1, "a")', "(3, 0)"]
+# the variable itself: (annotation, objects, literals to compare with)
+SELFVARS = [
+    ("Literal[1, 2, 3]", [1, 2, 3], ["0", "1", "2", "3", "4"]),
+    ('Literal["ab", "cd", "a"]', ["ab", "cd", "a"], ['"a"', '"ab"', '"b"', '"cd"']),
+    ("Union[Literal[1, 5], str]", [1, 5, "ab"], ["1", "3", "5"]),
+    ("Union[Literal[1, 2], None]", [1, 2, None], ["1", "None"]),
+]
+# unions of literal containers (local variable): `c in x` / `c not in x`
+CONTAINER_UNIONS = [('(1, 2)', '(3,)', ["1", "3", "4"]), ('"ab"', '"cd"', ['"a"', '"c"', '"cd"', '""']), ('(1, "a")', '()', ["1", '"a"']), ('"abc"', '(1, 2)', ['"b"', "1"])]
+FORMS = ("if", "ifnot", "stored")
+
+
+def _wrap(test, form, head, rec):
+    pre = f"    c_ = {test}\n" if form == "stored" else ""
+    cond = {"if": test, "ifnot": f"not ({test})", "stored": "c_"}[form]
+    return f"{head}{pre}    if {cond}:\n        R0({rec})\n    else:\n        R1({rec})\n"
+
+
+def compare_progs(rng, n_random, everything):
+    core, rest = [], []
+    for vi, (ann, objs) in enumerate(LENVARS):
+        head = f"def f_K(x: {ann}):\n"
+        for c in LEN_CONTAINERS:
+            for op in ("in", "not in"):
+                (core if vi < 4 and c in ("(1, 2)", "(0,)", "RNG3") else rest).append((f"len(x) {op} {c}", head, "x", [(o,) for o in objs], {"variable": ann}))
+        for op in CMP_OPS:
+            for n in (0, 1, 2, 3):
+                rest.append((f"len(x) {op} {n}", head, "x", [(o,) for o in objs], {"variable": ann}))
+                rest.append((f"{n} {op} len(x)", head, "x", [(o,) for o in objs], {"variable": ann}))
+    for ann, objs, lits in SELFVARS:
+        head = f"def f_K(x: {ann}):\n"
+        for c in lits:
+            for op in CMP_OPS:
+                if op in ("<", "<=", ">", ">=") and ("None" in ann or "str]" in ann or c == "None"):
+                    continue  # unorderable operands are a TypeError at run time and an error for pyanalyze
+                if op in ("is", "is not") and c != "None":
+                    continue
+                rest.append((f"x {op} {c}", head, "x", [(o,) for o in objs], {"variable": ann}))
+                rest.append((f"{c} {op} x", head, "x", [(o,) for o in objs], {"variable": ann}))
+    for a, b, lits in CONTAINER_UNIONS:
+        head = f"def f_K(flag: bool):\n    x = {a} if flag else {b}\n"
+        for c in lits:
+            for op in ("in", "not in"):
+                core.append((f"{c} {op} x", head, "x", [(True,), (False,)], {"variable": f"{a} | {b}"}))
+    for ann, objs, lits in SELFVARS[1:2]:
+        for c in lits:
+            for op in ("in", "not in"):
+                core.append((f"{c} {op} x", f"def f_K(x: {ann}):\n", "x", [(o,) for o in objs], {"variable": ann}))
+    if not everything:
+        rng.shuffle(rest)
+        rest = rest[:n_random]
+    out = []
+    for n, (test, head, rec, calls, inp) in enumerate(core + rest):
+        for form in (FORMS if everything else (FORMS[n % 3],)):
+            out.append({"kind": "compare", "body": _wrap(test, form, head, rec), "calls": calls, "input": dict(inp, test=test, form=form)})
+    return out
+
+
+# ---------------------------------------------------------------------------
 # attribution clauses (python mirrors of the Coq clauses; see known_findings.d/C02.json)
 
 
@@ -282,6 +374,9 @@ def analyse(progs):
 
 def execute(progs):
     """[(k, slot, bound object, args)]"""
+    import warnings
+
+    warnings.simplefilter("ignore", SyntaxWarning)  # `len(x) is 1`
     env = {}
     exec(PRELUDE + "_REC = []\n", env)
     out = []
@@ -312,9 +407,14 @@ def generate(tier, seed, replay):
         import json
         from pathlib import Path
 
-        want = json.loads((Path(__file__).parent / "corpus" / "C02_programs.json").read_text())["container"]
+        corpus = json.loads((Path(__file__).parent / "corpus" / "C02_programs.json").read_text())
         have = [p["input"] for p in progs]
-        progs += [p for p in container_progs(rng, 0, True) if p["input"] in want and p["input"] not in have]
+        progs += [p for p in container_progs(rng, 0, True) if p["input"] in corpus["container"] and p["input"] not in have]
+    cmp_progs = compare_progs(rng, 170 if tier == "quick" else 0, tier != "quick")
+    if tier == "quick":
+        have = [p["input"] for p in cmp_progs]
+        cmp_progs += [p for p in compare_progs(rng, 0, True) if p["input"] in corpus["compare"] and p["input"] not in have]
+    progs += cmp_progs
     return progs + leak_progs() + asname_progs() + protocol_progs()
 
 
